@@ -12,6 +12,8 @@ structure St where
   g   : G
   isz : Nat
   nh  : Nat
+  /-- capacity of the container in items (`aws_array_list_ensure_capacity`: double, or exactly what is needed) -/
+  ccap : Nat
 
 def errName : Err → String
   | .empty => "AWS_ERROR_PRIORITY_QUEUE_EMPTY"
@@ -43,7 +45,7 @@ def stateLines (s : St) : List String :=
     | some i => some s!" h{h}={i}"
     | none => none
   let heap := q.items.toList.map fun e => s!" {e.key}:{uidStr s.isz e}"
-  [s!"P live{String.join live}", s!"W heap{String.join heap}", s!"W idx{String.join idx}"]
+  [s!"P live{String.join live}", s!"W heap{String.join heap}", s!"W idx{String.join idx}", s!"W cap {s.ccap}"]
 
 def resLine (s : St) (name : String) (r : Res) : String :=
   let sz := s.g.q.items.size
@@ -54,7 +56,9 @@ def resLine (s : St) (name : String) (r : Res) : String :=
 
 def doOp (s : St) (name : String) (op : Op) : Option St × List String :=
   let (g', r) := gstep natCmp s.g op
-  let s' := compact { s with g := g' }
+  let old := s.g.q.items.size
+  let grown := g'.q.items.size > old ∧ s.g.q.cap.isNone ∧ s.ccap ≤ old
+  let s' := compact { s with g := g', ccap := if grown then max (2 * s.ccap) (old + 1) else s.ccap }
   (some s', resLine s' name r :: stateLines s')
 
 def step (s : Option St) (t : List String) : Option St × List String :=
@@ -63,9 +67,9 @@ def step (s : Option St) (t : List String) : Option St × List String :=
     match parseSize? n, isz.toNat?, nh.toNat? with
     | some n, some isz, some nh =>
       if isz = 0 ∨ nh > 64 then (s, ["bad-op"]) else
-      if kind == "dyn" then (some ⟨G.init initDynamic, isz, nh⟩, [])
+      if kind == "dyn" then (some ⟨G.init initDynamic, isz, nh, n⟩, [])
       else if kind == "static" then
-        if n = 0 then (s, ["bad-op"]) else (some ⟨G.init (initStatic n), isz, nh⟩, [])
+        if n = 0 then (s, ["bad-op"]) else (some ⟨G.init (initStatic n), isz, nh, n⟩, [])
       else (s, ["bad-op"])
     | _, _, _ => (s, ["bad-op"])
   | some s, ["push", k] =>
